@@ -322,6 +322,128 @@ Proof.
         -- exists (g_ph g). rewrite gph_id. split; [exact G|]. split; [apply qframe_refl|]. split; [|split; [|exact Hr]].
            ++ intros r0. unfold wq_items. cbn. rewrite Ef, Hc2, Hp. simpl. lia.
            ++ split; cbn; [intros; contradiction|rewrite Emode; auto].
-        -- rewrite <- Ef.
+        -- assert (Ef' : wq_fast q = x0 :: t0) by exact Ef. rewrite <- Ef' in *. clear Ef'.
            assert (Hrel : forall r0, (occ r0 ([] ++ wq_fast q) + occ r0 (g_ph g) = occ r0 (phl s g))%nat).
-* intros r0. unfold wq_items. cbn. rewrite Hc1, Hc2, Hp. simpl. Show. 
+           { intros r0. unfold phl. rewrite Hpw, Hk, (getm_some _ _ _ Hm), Hperm, Hitems, Hp. simpl. lia. }
+           assert (Hpre0 : forall x, In x (wq_fast q) -> occ x (g_pre g) = O) by (intros; rewrite Hq; reflexivity).
+           destruct (wq_compact_ginv (wq_fast q) s g k [] G Hk Hpw Ho Hpre0 Hrel) as [ph' P].
+           destruct (wq_compact s (wq_fast q)) as [s' kept]. destruct P as [P1 [P2 [P3 [P4 P5]]]].
+           assert (Hr' : aget (store s') r = Some lr) by (rewrite P5; auto; rewrite <- Hitems; auto).
+           assert (Hrelk : forall r0, (occ r0 kept + occ r0 ph' = occ r0 (wq_fast q))%nat).
+           { intros r0. specialize (P3 r0). unfold phl in P3. gs. rewrite Hpw, Hk in P3.
+             destruct (qframe_lists s s' k P2) as [_ [Q2 _]]. rewrite Q2, (getm_some _ _ _ Hm), Hperm, Hitems in P3.
+             simpl in P3. lia. }
+           exists ph'.
+           destruct (N.of_nat (length kept) <? wq_len q) eqn:Ek.
+           ++ split; [exact P1|]. split; [exact P2|]. split; [|split; [|exact Hr']].
+              ** intros r0. unfold wq_items. cbn. rewrite Hc2, !occ_app. specialize (Hrelk r0). simpl. lia.
+              ** split; cbn; [intros; contradiction|rewrite Emode; auto].
+           ++ destruct (wq_cap q <=? 128).
+              ** split; [exact P1|]. split; [exact P2|]. split; [|split; [|exact Hr']].
+                 --- intros r0. unfold wq_items. cbn. rewrite Hc2, !occ_app. specialize (Hrelk r0). simpl. lia.
+                 --- split; cbn; [intros Hg; exfalso; apply (grow_cap_ne0 _ Ec Hg)|rewrite Emode; auto].
+              ** apply N.ltb_ge in Ek. unfold wq_len in Ek. rewrite Hp in P4. simpl in P4.
+                 assert (Hph0 : ph' = []) by (apply length_zero_nil; lia). subst ph'.
+                 split; [exact P1|]. split; [exact P2|]. split; [|split; [|exact Hr']].
+                 --- intros r0. unfold wq_items. cbn. rewrite Hc2, !occ_app. simpl. lia.
+                 --- split; cbn; [exact Hc1|discriminate].
+  - exists (g_ph g). rewrite gph_id. split; [exact G|]. split; [apply qframe_refl|]. split; [|split; [|exact Hr]].
+    + intros r0. unfold wq_items. cbn. rewrite Hp, !occ_app. simpl. lia.
+    + split; cbn; [exact Hc1|rewrite Emode; discriminate].
+  - exists (g_ph g). rewrite gph_id. split; [exact G|]. split; [apply qframe_refl|]. split; [|split; [|exact Hr]].
+    + intros r0. unfold wq_items. cbn. rewrite Hp, !occ_app, occ_prio_insert. simpl. lia.
+    + split; cbn; [exact Hc1|rewrite Emode; discriminate].
+Qed.
+
+(* ---------------------------------------------------------------- LockManager.AddWaitLock *)
+Definition aw_choose (s : db) (k : N) (r : ref) : wqueue :=
+  let m := getm s k in
+  match m_wait m with
+  | None => wq_empty
+  | Some q =>
+      if m_waited m && negb (match wq_mode q with WPrio => true | _ => false end)
+      then match wq_head q with
+           | Some _ => if prio_of (l_cmd (getl s r)) =? wq_maxprio s q then q else wq_repush s q
+           | None => q
+           end
+      else q
+  end.
+Lemma add_wait_lock_eq s k r :
+  add_wait_lock s k r =
+  let '(s1, q1) := wq_push s (aw_choose s k r) r in
+  let s2 := updl s1 r (fun l => l <| l_refc := add8 (l_refc l) 1 |>) in
+  updm s2 k (fun m => m <| m_wait := Some q1 |> <| m_waited := true |>).
+Proof. reflexivity. Qed.
+
+Record aw_post (s s' : db) (k : N) (r : ref) (l : lockrec) : Prop := mkAwPost {
+  wp_rec : exists n, aget (store s') r = Some (l <| l_refc := n |>);
+  wp_in : occ r (m_wq (getm s' k)) = 1%nat;
+  wp_hold : holders (getm s' k) = holders (getm s k);
+  wp_lf : lframe s s'
+}.
+
+Lemma add_wait_lock_ginv s g k r l m :
+  GInv s g -> g_dk g = k -> g_ph g = [] -> g_pre g = [] -> g_owe g = [] -> g_pw g = false ->
+  aget (store s) r = Some l -> l_key l = k -> aget (mgrs s) k = Some m ->
+  l_locked l = 0 -> l_timeouted l = true -> occ r (m_wq m) = O ->
+  GInv (add_wait_lock s k r) g /\ aw_post s (add_wait_lock s k r) k r l.
+Proof.
+  intros G Hk Hp Hq Ho Hpw Hr Hkey Hm Hd Ht Hw.
+  destruct (gi_mgr _ _ G k m Hm) as [B1 B2 B3 B4 B5 B6 B7 B8 B9 Bb B10 Bc].
+  rewrite add_wait_lock_eq.
+  set (qc := aw_choose s k r).
+  assert (Hperm : forall r0, occ r0 (m_wq m) = occ r0 (wq_items qc)).
+  { intros r0. unfold qc, aw_choose. rewrite (getm_some _ _ _ Hm). unfold m_wq. destruct (m_wait m) as [q|]; [|reflexivity].
+    destruct (m_waited m && negb match wq_mode q with WPrio => true | _ => false end); auto.
+    destruct (wq_head q); auto. destruct (prio_of (l_cmd (getl s r)) =? wq_maxprio s q); auto. symmetry. apply wq_repush_items. }
+  assert (Hcapc : wq_capok qc).
+  { unfold qc, aw_choose. rewrite (getm_some _ _ _ Hm). destruct (m_wait m) as [q|] eqn:Ew; [|split; intros; reflexivity].
+    pose proof (proj2 Bc q eq_refl) as Cq. 
+    destruct (m_waited m && negb match wq_mode q with WPrio => true | _ => false end); auto.
+    destruct (wq_head q); auto. destruct (prio_of (l_cmd (getl s r)) =? wq_maxprio s q); auto. apply wq_repush_capok; auto. }
+  pose proof (ginv_set_pw s g true G Hp) as G1.
+  destruct (wq_push_ginv s (g <| g_pw := true |>) k qc r l m G1) as [ph' P]; gs; auto.
+  { apply occ_notin; auto. }
+  destruct (wq_push s qc r) as [s1 q1]. destruct P as [P1 [P2 [P3 [P4 P5]]]].
+  cbv zeta.
+  set (l2 := l <| l_refc := add8 (l_refc l) 1 |>).
+  assert (E2 : updl s1 r (fun l => l <| l_refc := add8 (l_refc l) 1 |>) = setl s1 r l2) by (exact (updl_some s1 r (fun l => l <| l_refc := add8 (l_refc l) 1 |>) l P5)).
+  assert (G2 : GInv (setl s1 r l2) (g <| g_pw := true |> <| g_ph := ph' |> <| g_pre := [r] |>)).
+  { rewrite <- E2. apply (updl_refc_pre s1 _ r l P1); gs; auto. }
+  rewrite E2.
+  set (s2 := setl s1 r l2) in *.
+  assert (Hr2 : aget (store s2) r = Some l2) by (unfold s2; rewrite store_setl, aget_aset_same; auto).
+  destruct (qframe_mgr_some s s1 k m P2 Hm) as [n Hm1].
+  set (mo := m <| m_ref := n |>) in *.
+  assert (Hm2 : aget (mgrs s2) k = Some mo) by exact Hm1.
+  rewrite (updm_some _ _ _ _ Hm2).
+  set (m' := mo <| m_wait := Some q1 |> <| m_waited := true |>).
+  assert (Hwm' : m_wq m' = wq_items q1) by (destruct m; reflexivity).
+  assert (Hwmo : m_wq mo = m_wq m) by (destruct m; reflexivity).
+  assert (Hhm' : holders m' = holders m) by (destruct m; reflexivity).
+  assert (Hrel : forall r0, (occ r0 (m_wq m') + occ r0 ph' = occ r0 (m_wq mo) + occ r0 [r])%nat).
+  { intros r0. rewrite Hwm', Hwmo, Hperm. apply P3. }
+  assert (GF : GInv (setm s2 k m') (g <| g_pw := true |> <| g_ph := ph' |> <| g_pre := [r] |> <| g_ph := [] |> <| g_pre := [] |> <| g_pw := false |>)).
+  { apply (install_w s2 _ k mo m' G2 Hm2); gs; auto; try (destruct m; reflexivity).
+    - intros r0 [<-|[]]. rewrite occ_cons_eq. simpl. rewrite Hwmo. repeat split; auto. exists l2. repeat split; auto.
+    - intros q0 Hq0. assert (q0 = q1) by (destruct m; cbn in Hq0; congruence). subst q0. exact P4. }
+  split.
+  - eapply ginv_geq; [exact GF|]. destruct g; gs; subst; reflexivity.
+  - constructor.
+    + exists (add8 (l_refc l) 1). exact Hr2.
+    + rewrite getm_setm_same, Hwm'. specialize (P3 r). rewrite <- Hperm, Hw, occ_cons_eq in P3. simpl in P3.
+      pose proof (gi_ph _ _ P1) as PH. gs.
+      destruct (occ r ph') eqn:E; [lia|]. exfalso.
+      assert (Hi : In r ph') by (apply occ_In; lia).
+      (* a phantom of the wait list was in the wait list *)
+      pose proof (gi_phle _ _ P1 r) as PL. unfold phl in PL. gs. rewrite Hk in PL.
+      destruct (qframe_lists s s1 k P2) as [_ [Q2 _]]. rewrite Q2, (getm_some _ _ _ Hm), Hw in PL. lia.
+    + rewrite getm_setm_same, Hhm', (getm_some _ _ _ Hm). reflexivity.
+    + eapply lframe_trans; [apply qframe_lframe; exact P2|].
+      eapply lframe_trans; [apply qframe_lframe; apply (setl_refc_qframe s1 r l (add8 (l_refc l) 1) P5)|].
+      pose proof (lframe_updm_lists s2 k (fun m => m <| m_wait := Some q1 |> <| m_waited := true |>)) as LF.
+      rewrite (updm_some _ _ _ _ Hm2) in LF.
+      (* m_waited changes: state the frame by hand *)
+      clear LF. constructor; auto.
+      * intros r0. change (store (setm s2 k m')) with (store s2). destruct (aget (store s2) r0) as [l0|]; auto.
+ Show. 
